@@ -714,6 +714,555 @@ theorem decrypt_no_panic (env : Env) (ct : Ct) (pt : Pt) : (decrypt env ct pt).i
   simp only [decrypt, usub]
   grind [Res.isPanic]
 
+/-! ## the state an `Err` leaves behind (docs/fixes/08: the budget is checked before `dst` is touched) -/
+
+theorem bind_err {σ : Type} (r : Res σ) (f : σ → Res σ) (e : Err) (s' : σ) (h : r.bind f = .err e s') :
+    r = .err e s' ∨ ∃ s, r = .ok s ∧ f s = .err e s' := by
+  cases r <;> simp [Res.bind] at h
+  · exact Or.inr ⟨_, rfl, h⟩
+  · exact Or.inl (by rw [h.1, h.2])
+
+theorem shiftInto_err (env : Env) (dst a s : Ct) (extra : Nat) (e : Err)
+    (h : shiftInto env dst a extra = .err e s) : s = dst := by
+  simp only [shiftInto] at h; grind
+
+theorem ptAlign_err (env : Env) (dst s : Ct) (pt : Pt) (e : Err) (h : ptAlign env dst pt = .err e s) : s = dst := by
+  simp only [ptAlign] at h; grind
+
+theorem cstAssign_err (env : Env) (dst s : Ct) (cst : Cst) (e : Err) (h : cstAssign env dst cst = .err e s) : s = dst := by
+  simp only [cstAssign] at h; grind
+
+theorem addCtInto_err (env : Env) (dst a b s : Ct) (e : Err) (h : addCtInto env dst a b = .err e s) : s = dst := by
+  simp only [addCtInto] at h; grind
+
+theorem addCtAssign_not_err (env : Env) (dst a s : Ct) (e : Err) : addCtAssign env dst a ≠ .err e s := by
+  have := assignShift_isSome dst.md.logBudget a.md.logBudget
+  simp only [addCtAssign]; grind
+
+theorem withPt_err (env : Env) (pt : Pt) (dst s : Ct) (f : Res Ct) (e : Err) (h : withPt env pt dst f = .err e s) :
+    s = dst ∨ f = .err e s := by
+  simp only [withPt, ptBuild] at h; grind
+
+theorem addPtZnxInto_err_inv (env : Env) (dst a s : Ct) (pt : Pt) (e : Err) (hd : dst.inv env)
+    (h : addPtZnxInto env dst a pt = .err e s) : s.inv env := by
+  rcases bind_err _ _ _ _ h with h1 | ⟨d, h1, h2⟩
+  · exact shiftInto_err _ _ _ _ _ _ h1 ▸ hd
+  · exact ptAlign_err _ _ _ _ _ h2 ▸ (shiftInto_ok_inv _ _ _ _ _ h1).1
+
+theorem addCstZnxInto_err_inv (env : Env) (dst a s : Ct) (cst : Cst) (e : Err) (hd : dst.inv env)
+    (h : addCstZnxInto env dst a cst = .err e s) : s.inv env := by
+  rcases bind_err _ _ _ _ h with h1 | ⟨d, h1, h2⟩
+  · exact shiftInto_err _ _ _ _ _ _ h1 ▸ hd
+  · exact cstAssign_err _ _ _ _ _ h2 ▸ (shiftInto_ok_inv _ _ _ _ _ h1).1
+
+theorem addPtRnxInto_err_inv (env : Env) (dst a s : Ct) (prec : Meta) (e : Err) (hd : dst.inv env)
+    (h : addPtRnxInto env dst a prec = .err e s) : s.inv env := by
+  simp only [addPtRnxInto, rnxToZnx] at h
+  split at h
+  · have : s = dst := by grind
+    exact this ▸ hd
+  · exact addPtZnxInto_err_inv _ _ _ _ _ _ hd h
+
+theorem addPtRnxAssign_err (env : Env) (dst s : Ct) (prec : Meta) (e : Err)
+    (h : addPtRnxAssign env dst prec = .err e s) : s = dst := by
+  simp only [addPtRnxAssign, rnxToZnx, addPtZnxAssign, ptAlign] at h; grind
+
+theorem addCstRnxAssign_err (env : Env) (dst s : Ct) (prec : Meta) (re im : Bool) (e : Err)
+    (h : addCstRnxAssign env dst prec re im = .err e s) : s = dst := by
+  simp only [addCstRnxAssign] at h
+  split at h
+  · cases h
+  · rcases toZnxAtK_cases env (dst.md.logBudget + prec.logDelta) prec.logDelta re im dst with h1 | ⟨_, _, h1⟩
+    · rw [h1] at h; injection h with _ h; exact h.symm
+    · rw [h1] at h; exact cstAssign_err _ _ _ _ _ h
+
+theorem addCstZnxAssignK_err (env : Env) (dst s : Ct) (k ld : Nat) (re im : Bool) (e : Err)
+    (h : addCstZnxAssignK env dst k ld re im = .err e s) : s = dst := by
+  simp only [addCstZnxAssignK] at h
+  rcases toZnxAtK_cases env k ld re im dst with h1 | ⟨_, _, h1⟩
+  · rw [h1] at h; injection h with _ h; exact h.symm
+  · rw [h1] at h; exact cstAssign_err _ _ _ _ _ h
+
+theorem addCstZnxIntoK_err_inv (env : Env) (dst a s : Ct) (k ld : Nat) (re im : Bool) (e : Err) (hd : dst.inv env)
+    (h : addCstZnxIntoK env dst a k ld re im = .err e s) : s.inv env := by
+  simp only [addCstZnxIntoK] at h
+  rcases toZnxAtK_cases env k ld re im dst with h1 | ⟨_, _, h1⟩
+  · rw [h1] at h; injection h with _ h; exact h ▸ hd
+  · rw [h1] at h; exact addCstZnxInto_err_inv _ _ _ _ _ _ hd h
+
+theorem addCstRnxInto_err_inv (env : Env) (dst a s : Ct) (prec : Meta) (re im : Bool) (e : Err) (hd : dst.inv env)
+    (h : addCstRnxInto env dst a prec re im = .err e s) : s.inv env := by
+  simp only [addCstRnxInto] at h
+  split at h
+  · exact shiftInto_err _ _ _ _ _ _ h ▸ hd
+  · split at h
+    · rcases toZnxAtK_cases env (a.md.logBudget - offsetUnary env dst a + prec.logDelta) prec.logDelta re im dst with
+        h1 | ⟨_, _, h1⟩
+      · rw [h1] at h; injection h with _ h; exact h ▸ hd
+      · rw [h1] at h; exact addCstZnxInto_err_inv _ _ _ _ _ _ hd h
+    · injection h with _ h; exact h ▸ hd
+
+theorem negInto_err (env : Env) (dst a s : Ct) (e : Err) (h : negInto env dst a = .err e s) : s = dst := by
+  simp only [negInto, shiftInto] at h; grind
+
+theorem divPow2Into_err (env : Env) (dst a s : Ct) (bits : Nat) (e : Err)
+    (h : divPow2Into env dst a bits = .err e s) : s = dst := by
+  simp only [divPow2Into, shiftInto, Res.bind] at h; grind
+
+theorem divPow2Assign_err (env : Env) (dst s : Ct) (bits : Nat) (e : Err)
+    (h : divPow2Assign env dst bits = .err e s) : s = dst := by
+  simp only [divPow2Assign] at h; grind
+
+theorem rotateInto_err (env : Env) (dst a s : Ct) (k : Int) (e : Err) (h : rotateInto env dst a k = .err e s) : s = dst := by
+  simp only [rotateInto, shiftInto] at h; grind
+
+theorem rotateAssign_err (env : Env) (dst s : Ct) (k : Int) (e : Err) (h : rotateAssign env dst k = .err e s) : s = dst := by
+  simp only [rotateAssign] at h; grind
+
+theorem rescaleAssign_err (env : Env) (ct s : Ct) (k : Nat) (e : Err) (h : rescaleAssign env ct k = .err e s) : s = ct := by
+  simp only [rescaleAssign] at h; grind
+
+theorem rescaleInto_err (env : Env) (dst src s : Ct) (k : Nat) (e : Err)
+    (h : rescaleInto env dst k src = .err e s) : s = dst := by
+  simp only [rescaleInto] at h; grind
+
+theorem finishMul_not_err (dst s : Ct) (p : MulP) (chk : Option Panic) (e : Err) : finishMul dst p chk ≠ .err e s := by
+  cases chk <;> simp [finishMul]
+
+theorem mulInto_err (env : Env) (dst a b s : Ct) (e : Err) (h : mulInto env dst a b = .err e s) : s = dst := by
+  simp only [mulInto] at h
+  split at h
+  · injection h with _ h; exact h.symm
+  · exact absurd h (finishMul_not_err _ _ _ _ _)
+
+theorem squareInto_err (env : Env) (dst a s : Ct) (e : Err) (h : squareInto env dst a = .err e s) : s = dst := by
+  simp only [squareInto] at h
+  split at h
+  · injection h with _ h; exact h.symm
+  · exact absurd h (finishMul_not_err _ _ _ _ _)
+
+theorem mulPtZnxInto_err (env : Env) (dst a s : Ct) (pt : Pt) (e : Err)
+    (h : mulPtZnxInto env dst a pt = .err e s) : s = dst := by
+  simp only [mulPtZnxInto] at h
+  split at h
+  · injection h with _ h; exact h.symm
+  · split at h
+    · injection h with _ h; exact h.symm
+    · exact absurd h (finishMul_not_err _ _ _ _ _)
+
+theorem mulPtRnxInto_err (env : Env) (dst a s : Ct) (prec : Meta) (e : Err)
+    (h : mulPtRnxInto env dst a prec = .err e s) : s = dst := by
+  simp only [mulPtRnxInto, rnxToZnx] at h
+  split at h
+  · grind
+  · exact mulPtZnxInto_err _ _ _ _ _ _ h
+
+theorem mulCstRnx_err (env : Env) (dst a s : Ct) (prec : Meta) (re im assign : Bool) (e : Err)
+    (h : mulCstRnx env dst a prec re im assign = .err e s) : s = dst := by
+  simp only [mulCstRnx] at h
+  split at h
+  · split at h
+    · injection h with _ h; exact h.symm
+    · cases h
+  · rcases toZnxAtK_cases env (prec.minK env.base2k) prec.logDelta re im dst with h1 | ⟨_, _, h1⟩
+    · rw [h1] at h; injection h with _ h; exact h.symm
+    · rw [h1] at h
+      simp only at h
+      split at h
+      · injection h with _ h; exact h.symm
+      · exact absurd h (finishMul_not_err _ _ _ _ _)
+
+theorem mulAddWith_err (env : Env) (dst s : Ct) (prod : Ct → Res Ct) (e : Err)
+    (h : mulAddWith env dst prod = .err e s) : s = dst := by
+  simp only [mulAddWith] at h
+  split at h
+  · exact absurd h (addCtAssign_not_err _ _ _ _ _)
+  · injection h with _ h; exact h.symm
+  · cases h
+
+theorem setMeta_err (env : Env) (ct s : Ct) (m : Meta) (e : Err) (h : setMeta env ct m = .err e s) : s = ct := by
+  simp only [setMeta] at h; grind
+
+theorem realloc_err (env : Env) (ct s : Ct) (size : Nat) (e : Err) (h : realloc env ct size = .err e s) : s = ct := by
+  simp only [realloc] at h; grind
+
+theorem compactCopy_not_err (env : Env) (dst a s : Ct) (e : Err) : compactCopy env dst a ≠ .err e s := by
+  simp only [compactCopy]; grind
+
+theorem decrypt_err (env : Env) (ct s : Ct) (pt : Pt) (e : Err) (h : decrypt env ct pt = .err e s) : s = ct := by
+  simp only [decrypt] at h; grind
+
+theorem encrypt_err_inv (env : Env) (ct s : Ct) (k : Nat) (pt : Pt) (e : Err) (hd : ct.inv env)
+    (h : encrypt env ct k pt = .err e s) : s.inv env := by
+  simp only [encrypt] at h
+  split at h
+  · injection h with _ h; exact h ▸ hd
+  · split at h
+    · rcases bind_err _ _ _ _ h with h1 | ⟨d, h1, h2⟩
+      · exact setMeta_err _ _ _ _ _ h1 ▸ hd
+      · exact ptAlign_err _ _ _ _ _ h2 ▸ (setMeta_ok_inv _ _ _ _ h1).1
+    · injection h with _ h; exact h ▸ hd
+
+theorem putRes_err (pool pool' : Pool) (d : Nat) (r : Res Ct) (e : Err) (h : putRes pool d r = .err e pool') :
+    ∃ c, r = .err e c ∧ pool' = pool.set d c := by
+  cases r <;> simp [putRes] at h
+  exact ⟨_, by rw [h.1], h.2.symm⟩
+
+theorem op1_err (pool pool' : Pool) (d : Nat) (f : Ct → Res Ct) (e : Err) (h : op1 pool d f = .err e pool') :
+    pool' = pool ∨ ∃ cd c, pool[d]? = some cd ∧ f cd = .err e c ∧ pool' = pool.set d c := by
+  simp only [op1] at h
+  split at h
+  · next cd hcd =>
+    obtain ⟨c, h1, h2⟩ := putRes_err _ _ _ _ _ h
+    exact Or.inr ⟨cd, c, hcd, h1, h2⟩
+  · injection h with _ h; exact Or.inl h.symm
+
+theorem op2_err (pool pool' : Pool) (d a : Nat) (f : Ct → Ct → Res Ct) (e : Err) (h : op2 pool d a f = .err e pool') :
+    pool' = pool ∨ ∃ cd ca c, pool[d]? = some cd ∧ pool[a]? = some ca ∧ f cd ca = .err e c ∧ pool' = pool.set d c := by
+  simp only [op2] at h
+  split at h
+  · next cd ca hcd hca =>
+    split at h
+    · injection h with _ h; exact Or.inl h.symm
+    · obtain ⟨c, h1, h2⟩ := putRes_err _ _ _ _ _ h
+      exact Or.inr ⟨cd, ca, c, hcd, hca, h1, h2⟩
+  · injection h with _ h; exact Or.inl h.symm
+
+theorem op3_err (pool pool' : Pool) (d a b : Nat) (f : Ct → Ct → Ct → Res Ct) (e : Err)
+    (h : op3 pool d a b f = .err e pool') :
+    pool' = pool ∨ ∃ cd ca cb c, pool[d]? = some cd ∧ pool[a]? = some ca ∧ pool[b]? = some cb ∧
+      f cd ca cb = .err e c ∧ pool' = pool.set d c := by
+  simp only [op3] at h
+  split at h
+  · next cd ca cb hcd hca hcb =>
+    split at h
+    · injection h with _ h; exact Or.inl h.symm
+    · obtain ⟨c, h1, h2⟩ := putRes_err _ _ _ _ _ h
+      exact Or.inr ⟨cd, ca, cb, c, hcd, hca, hcb, h1, h2⟩
+  · injection h with _ h; exact Or.inl h.symm
+
+theorem Inv_set_self (env : Env) (pool : Pool) (d : Nat) (cd : Ct) (h : Inv env pool) (hcd : pool[d]? = some cd) :
+    Inv env (pool.set d cd) := Inv_set _ _ _ _ h (h _ (mem_of_get? _ _ _ hcd))
+
+theorem alignStep_err_inv (env : Env) (pool pool' : Pool) (a b : Nat) (e : Err) (hI : Inv env pool)
+    (h : alignStep env pool a b = .err e pool') : Inv env pool' := by
+  simp only [alignStep] at h
+  split at h
+  · next ca cb hca hcb =>
+    split at h
+    · injection h with _ h; exact h ▸ hI
+    · split at h
+      · split at h
+        · cases h
+        · obtain ⟨c, h1, rfl⟩ := putRes_err _ _ _ _ _ h
+          exact rescaleAssign_err _ _ _ _ _ h1 ▸ Inv_set_self _ _ _ _ hI hcb
+      · split at h
+        · cases h
+        · obtain ⟨c, h1, rfl⟩ := putRes_err _ _ _ _ _ h
+          exact rescaleAssign_err _ _ _ _ _ h1 ▸ Inv_set_self _ _ _ _ hI hca
+  · injection h with _ h; exact h ▸ hI
+
+/-! ## composite operations -/
+
+theorem getAll_mem (pool : Pool) (d : Nat) : ∀ (as : List Nat) (cs : List Ct), getAll pool d as = some cs → ∀ c ∈ cs, c ∈ pool := by
+  intro as
+  induction as with
+  | nil => intro cs h c hc; simp [getAll] at h; subst h; cases hc
+  | cons a as ih =>
+    intro cs h c hc
+    simp only [getAll] at h
+    split at h
+    · cases h
+    · split at h
+      · next x xs hx hxs =>
+        injection h with h; subst h
+        rcases List.mem_cons.1 hc with rfl | hc
+        · exact mem_of_get? _ _ _ hx
+        · exact ih xs hxs c hc
+      · cases h
+
+theorem addCtAssign_total (env : Env) (dst a : Ct) : ∃ d', addCtAssign env dst a = .ok d' := by
+  have h1 := addCtAssign_no_panic env dst a
+  cases h : addCtAssign env dst a with
+  | ok d' => exact ⟨d', rfl⟩
+  | err e s => exact absurd h (addCtAssign_not_err _ _ _ _ _)
+  | panic p => rw [h] at h1; simp [Res.isPanic] at h1
+
+/-- the loop of `ckks_add_assign_unsafe` over further inputs -/
+def foldAssign (env : Env) (cs : List Ct) (r : Res Ct) : Res Ct :=
+  cs.foldl (fun r c => r.bind (fun d' => addCtAssign env d' c)) r
+
+theorem foldAssign_ok (env : Env) : ∀ (cs : List Ct) (d : Ct), d.inv env →
+    ∃ d', foldAssign env cs (.ok d) = .ok d' ∧ d'.inv env := by
+  intro cs
+  induction cs with
+  | nil => intro d hd; exact ⟨d, rfl, hd⟩
+  | cons c cs ih =>
+    intro d hd
+    obtain ⟨d1, h1⟩ := addCtAssign_total env d c
+    obtain ⟨i1, _⟩ := addCtAssign_ok_inv env d c d1 hd h1
+    obtain ⟨d2, h2, i2⟩ := ih d1 i1
+    refine ⟨d2, ?_, i2⟩
+    simp only [foldAssign, List.foldl, Res.bind, h1]
+    exact h2
+
+theorem addMany_cases (env : Env) (dst : Ct) (ins : List Ct) :
+    (∃ d', addMany env dst ins = .ok d' ∧ d'.inv env) ∨ (∃ e, addMany env dst ins = .err e dst) := by
+  match ins with
+  | [] => exact Or.inr ⟨_, rfl⟩
+  | [a] =>
+    simp only [addMany]
+    cases h : shiftInto env dst a 0 with
+    | ok d' => exact Or.inl ⟨d', rfl, (shiftInto_ok_inv _ _ _ _ _ h).1⟩
+    | err e s => exact Or.inr ⟨e, by rw [shiftInto_err _ _ _ _ _ _ h]⟩
+    | panic p => have := shiftInto_no_panic env dst a 0; rw [h] at this; simp [Res.isPanic] at this
+  | a :: b :: rest =>
+    simp only [addMany]
+    split
+    · exact Or.inr ⟨_, rfl⟩
+    · cases h : addCtInto env dst a b with
+      | ok d1 =>
+        obtain ⟨d2, h2, i2⟩ := foldAssign_ok env rest d1 (addCtInto_ok_inv _ _ _ _ _ h).1
+        exact Or.inl ⟨d2, by simp only [Res.bind]; exact h2, i2⟩
+      | err e s => exact Or.inr ⟨e, by rw [addCtInto_err _ _ _ _ _ _ h]; rfl⟩
+      | panic p => have := addCtInto_no_panic env dst a b; rw [h] at this; simp [Res.isPanic] at this
+
+theorem mulInto_ok_delta (env : Env) (dst a b d' : Ct) (h : mulInto env dst a b = .ok d') :
+    d'.md.logDelta = min a.md.logDelta b.md.logDelta := by
+  simp only [mulInto, mulCtParams, finishMul] at h
+  grind
+
+theorem shiftInto_ok_delta (env : Env) (dst a d' : Ct) (extra : Nat) (h : shiftInto env dst a extra = .ok d') :
+    d'.md.logDelta = a.md.logDelta := by
+  simp only [shiftInto] at h
+  grind
+
+/-- a sub-product of `mul_many_rec`: what the tree needs from the recursive calls -/
+structure RecOk (env : Env) (rec : Ct → List Ct → Res Ct) (δ : Nat) (ins : List Ct) : Prop where
+  inv : ∀ dst d', rec dst ins = .ok d' → d'.inv env ∧ d'.md.logDelta = δ
+  noPanic : ∀ dst, (rec dst ins).isPanic = false
+
+theorem mulTree_spec (env : Env) (hw : WF env) (rec : Ct → List Ct → Res Ct) (dst : Ct) (ins : List Ct) (δ : Nat) :
+    (∀ d', mulTree env rec dst ins δ = .ok d' →
+      (∀ t l, rec t (ins.take (ins.length / 2)) = .ok l → l.md.logDelta = δ) →
+      (∀ t r, rec t (ins.drop (ins.length / 2)) = .ok r → r.md.logDelta = δ) → d'.inv env ∧ d'.md.logDelta = δ) ∧
+    (∀ e s, mulTree env rec dst ins δ = .err e s → s = dst) := by
+  simp only [mulTree]
+  constructor
+  · intro d' h hl hr
+    split at h
+    · cases h
+    · cases h
+    · next l hlo =>
+      split at h
+      · cases h
+      · cases h
+      · next r hro =>
+        refine ⟨(mulInto_ok_inv _ _ _ _ _ h).1, ?_⟩
+        rw [mulInto_ok_delta _ _ _ _ _ h, hl _ _ hlo, hr _ _ hro]; simp
+  · intro e s h
+    split at h
+    · cases h
+    · injection h with _ h; exact h.symm
+    · split at h
+      · cases h
+      · injection h with _ h; exact h.symm
+      · exact mulInto_err _ _ _ _ _ _ h
+
+theorem all_delta_eq (ins : List Ct) (δ : Nat) (h : ins.all (fun c => c.md.logDelta == δ) = true) :
+    ∀ c ∈ ins, c.md.logDelta = δ := by
+  intro c hc
+  have := List.all_eq_true.1 h c hc
+  simpa using this
+
+theorem mulManyRec_err (env : Env) (hw : WF env) : ∀ (fuel : Nat) (dst s : Ct) (ins : List Ct) (e : Err),
+    mulManyRec env fuel dst ins = .err e s → s = dst := by
+  intro fuel
+  cases fuel with
+  | zero => intro dst s ins e h; simp [mulManyRec] at h; exact h.2.symm
+  | succ fuel =>
+    intro dst s ins e h
+    match ins with
+    | [] => simp [mulManyRec] at h; exact h.2.symm
+    | [x] => simp only [mulManyRec] at h; exact shiftInto_err _ _ _ _ _ _ h
+    | [x, y] =>
+      simp only [mulManyRec] at h
+      split at h
+      · exact mulInto_err _ _ _ _ _ _ h
+      · injection h with _ h; exact h.symm
+    | a :: b :: c :: rest =>
+      simp only [mulManyRec] at h
+      split at h
+      · exact (mulTree_spec env hw _ _ _ _).2 e s h
+      · injection h with _ h; exact h.symm
+
+theorem mulManyRec_ok (env : Env) (hw : WF env) : ∀ (fuel : Nat) (dst d' : Ct) (ins : List Ct) (δ : Nat),
+    (∀ c ∈ ins, c.md.logDelta = δ) → mulManyRec env fuel dst ins = .ok d' → d'.inv env ∧ d'.md.logDelta = δ := by
+  intro fuel
+  induction fuel with
+  | zero => intro dst d' ins δ _ h; simp [mulManyRec] at h
+  | succ fuel ih =>
+    intro dst d' ins δ hδ h
+    match ins with
+    | [] => simp [mulManyRec] at h
+    | [x] =>
+      simp only [mulManyRec] at h
+      exact ⟨(shiftInto_ok_inv _ _ _ _ _ h).1, by rw [shiftInto_ok_delta _ _ _ _ _ h]; exact hδ x (by simp)⟩
+    | [x, y] =>
+      simp only [mulManyRec] at h
+      split at h
+      · refine ⟨(mulInto_ok_inv _ _ _ _ _ h).1, ?_⟩
+        rw [mulInto_ok_delta _ _ _ _ _ h, hδ x (by simp), hδ y (by simp)]; simp
+      · cases h
+    | a :: b :: c :: rest =>
+      simp only [mulManyRec] at h
+      split at h
+      · have ha : a.md.logDelta = δ := hδ a (by simp)
+        rw [ha] at h
+        exact (mulTree_spec env hw _ _ _ _).1 d' h
+          (fun t l hl => (ih t l _ δ (fun z hz => hδ z (List.mem_of_mem_take hz)) hl).2)
+          (fun t r hr => (ih t r _ δ (fun z hz => hδ z (List.mem_of_mem_drop hz)) hr).2)
+      · cases h
+
+/-- the inputs of an accepted `mul_many_rec` level have a common `log_delta` -/
+theorem mulManyRec_ok_inv (env : Env) (hw : WF env) : ∀ (fuel : Nat) (dst d' : Ct) (ins : List Ct),
+    mulManyRec env fuel dst ins = .ok d' → d'.inv env := by
+  intro fuel
+  cases fuel with
+  | zero => intro dst d' ins h; simp [mulManyRec] at h
+  | succ fuel =>
+    intro dst d' ins h
+    match ins with
+    | [] => simp [mulManyRec] at h
+    | [x] => simp only [mulManyRec] at h; exact (shiftInto_ok_inv _ _ _ _ _ h).1
+    | [x, y] =>
+      simp only [mulManyRec] at h
+      split at h
+      · exact (mulInto_ok_inv _ _ _ _ _ h).1
+      · cases h
+    | a :: b :: c :: rest =>
+      simp only [mulManyRec] at h
+      split at h
+      · simp only [mulTree] at h
+        split at h
+        · cases h
+        · cases h
+        · split at h
+          · cases h
+          · cases h
+          · exact (mulInto_ok_inv _ _ _ _ _ h).1
+      · cases h
+
+theorem mulManyRec_no_panic (env : Env) (hw : WF env) : ∀ (fuel : Nat) (dst : Ct) (ins : List Ct),
+    (∀ c ∈ ins, c.inv env ∧ 0 < c.md.logDelta) → (mulManyRec env fuel dst ins).isPanic = false := by
+  intro fuel
+  induction fuel with
+  | zero => intro dst ins _; rfl
+  | succ fuel ih =>
+    intro dst ins hin
+    match ins with
+    | [] => rfl
+    | [x] => simp only [mulManyRec]; exact shiftInto_no_panic _ _ _ _
+    | [x, y] =>
+      simp only [mulManyRec]
+      have hx := hin x (by simp)
+      have hy := hin y (by simp)
+      split
+      · exact mulInto_no_panic _ hw _ _ _ hx.1 hy.1 (by simp only [Meta.effK]; omega) (by simp only [Meta.effK]; omega)
+      · rfl
+    | a :: b :: c :: rest =>
+      simp only [mulManyRec]
+      split
+      · next hall =>
+        have hδ := all_delta_eq _ _ hall
+        have ha := hin a (by simp)
+        simp only [mulTree]
+        have hl := fun (t : Ct) => ih t (List.take ((a :: b :: c :: rest).length / 2) (a :: b :: c :: rest))
+          (fun z hz => hin z (List.mem_of_mem_take hz))
+        have hr := fun (t : Ct) => ih t (List.drop ((a :: b :: c :: rest).length / 2) (a :: b :: c :: rest))
+          (fun z hz => hin z (List.mem_of_mem_drop hz))
+        split
+        · next p hp => have := congrArg Res.isPanic hp; rw [hl] at this; simp [Res.isPanic] at this
+        · rfl
+        · next l hlo =>
+          split
+          · next p hp => have := congrArg Res.isPanic hp; rw [hr] at this; simp [Res.isPanic] at this
+          · rfl
+          · next r hro =>
+            have ol := mulManyRec_ok env hw _ _ _ _ a.md.logDelta (fun z hz => hδ z (List.mem_of_mem_take hz)) hlo
+            have or := mulManyRec_ok env hw _ _ _ _ a.md.logDelta (fun z hz => hδ z (List.mem_of_mem_drop hz)) hro
+            exact mulInto_no_panic _ hw _ _ _ ol.1 or.1 (by simp only [Meta.effK]; omega) (by simp only [Meta.effK]; omega)
+      · rfl
+
+theorem accumulate_err_fold (env : Env) : ∀ (ts : List (Ct → Res Ct)) (e : Err) (s : Ct),
+    ts.foldl (accStep env) (Res.err e s) = Res.err e s := by
+  intro ts
+  induction ts with
+  | nil => intro e s; rfl
+  | cons t ts ih => intro e s; simp only [List.foldl, accStep, Res.bind]; exact ih e s
+
+/-- `accumulate_unnormalized` -/
+theorem accumulate_spec (env : Env) : ∀ (terms : List (Ct → Res Ct)) (d : Ct), d.inv env →
+    (∀ t ∈ terms, ∀ x, (t x).isPanic = false) →
+    ((accumulate env d terms).isPanic = false) ∧
+    (∀ d', accumulate env d terms = .ok d' → d'.inv env) ∧
+    (∀ e s, accumulate env d terms = .err e s → s.inv env) := by
+  intro terms
+  induction terms with
+  | nil =>
+    intro d hd _
+    refine ⟨rfl, ?_, ?_⟩
+    · intro d' h; simp [accumulate] at h; exact h ▸ hd
+    · intro e s h; simp [accumulate] at h
+  | cons t ts ih =>
+    intro d hd hp
+    have hpt := hp t (by simp) (mulTmp d)
+    have hstep : accumulate env d (t :: ts) = ts.foldl (accStep env) (accStep env (.ok d) t) := rfl
+    rw [hstep]
+    cases ht : t (mulTmp d) with
+    | panic p => rw [ht] at hpt; simp [Res.isPanic] at hpt
+    | err e x =>
+      have hs : accStep env (.ok d) t = .err e d := by simp only [accStep, Res.bind, ht]
+      rw [hs, accumulate_err_fold]
+      refine ⟨rfl, ?_, ?_⟩
+      · intro d' h; cases h
+      · intro e2 s2 h; injection h with _ h; exact h ▸ hd
+    | ok tmp =>
+      obtain ⟨d1, h1⟩ := addCtAssign_total env d tmp
+      have i1 := (addCtAssign_ok_inv env d tmp d1 hd h1).1
+      have hs : accStep env (.ok d) t = .ok d1 := by simp only [accStep, Res.bind, ht, h1]
+      rw [hs]
+      exact ih d1 i1 (fun t' ht' => hp t' (List.mem_cons_of_mem _ ht'))
+
+theorem dotWith_spec (env : Env) (dst : Ct) (n : Nat) (first : Ct → Res Ct) (others : List (Ct → Res Ct))
+    (hd : dst.inv env)
+    (hf1 : (first dst).isPanic = false) (hf2 : ∀ d', first dst = .ok d' → d'.inv env) (hf3 : ∀ e s, first dst = .err e s → s = dst)
+    (hp : ∀ t ∈ others, ∀ x, (t x).isPanic = false) :
+    ((dotWith env dst n first others).isPanic = false) ∧
+    (∀ d', dotWith env dst n first others = .ok d' → d'.inv env) ∧
+    (∀ e s, dotWith env dst n first others = .err e s → s.inv env) := by
+  have herr : ∀ (e0 : Err), ((Res.err e0 dst : Res Ct).isPanic = false) ∧
+      (∀ d', (Res.err e0 dst : Res Ct) = .ok d' → d'.inv env) ∧
+      (∀ e s, (Res.err e0 dst : Res Ct) = .err e s → s.inv env) := by
+    intro e0
+    refine ⟨rfl, ?_, ?_⟩
+    · intro d' h; cases h
+    · intro e s h; injection h with _ h; exact h ▸ hd
+  simp only [dotWith]
+  split
+  · exact herr _
+  · split
+    · exact herr _
+    · cases hfd : first dst with
+      | panic p => rw [hfd] at hf1; simp [Res.isPanic] at hf1
+      | err e s =>
+        simp only [Res.bind]
+        rw [hf3 e s hfd]
+        exact herr _
+      | ok d1 =>
+        simp only [Res.bind]
+        exact accumulate_spec env others d1 (hf2 d1 hfd) hp
+
 theorem alignStep_ok_inv (env : Env) (pool pool' : Pool) (a b : Nat) (hI : Inv env pool)
     (h : alignStep env pool a b = .ok pool') : Inv env pool' := by
   simp only [alignStep] at h
@@ -731,6 +1280,529 @@ theorem alignStep_ok_inv (env : Env) (pool pool' : Pool) (a b : Nat) (hI : Inv e
         · obtain ⟨c, h1, rfl⟩ := putRes_ok _ _ _ _ h
           exact Inv_set _ _ _ _ hI (rescaleAssign_ok_inv _ _ _ _ (hI _ (mem_of_get? _ _ _ hca)) h1).1
   · cases h
+
+/-! ## the hypothesis under which a call cannot panic -/
+
+/-- all listed source slots hold a ciphertext with positive `log_delta` (resp. a value) -/
+def allAt (pool : Pool) (as : List Nat) (P : Ct → Prop) : Prop := ∀ a ∈ as, ∀ c, pool[a]? = some c → P c
+
+/-- the ciphertext in slot `i` holds a value: `effective_k > 0` (it was produced by an encryption or
+an evaluation, not merely allocated) -/
+def initAt (pool : Pool) (i : Nat) : Prop := ∀ c, pool[i]? = some c → 0 < c.md.effK
+
+/-- `Initialised env pool op`: the ciphertext operands of a ct×ct / ct×plaintext-vector multiplication
+have been given a value.  A merely allocated buffer has `effective_k = 0` and narrows to zero limbs,
+which the FFT64 convolution rejects with a panic (NTT120 accepts it). -/
+def Initialised (_env : Env) (pool : Pool) : Op → Prop
+  | .mul _ a b => initAt pool a ∧ initAt pool b
+  | .mulAssign d a => initAt pool d ∧ initAt pool a
+  | .square _ a => initAt pool a
+  | .squareAssign d => initAt pool d
+  | .mulPtZnx _ a _ => initAt pool a
+  | .mulPtZnxAssign d _ => initAt pool d
+  | .mulPtRnx _ a _ => initAt pool a
+  | .mulPtRnxAssign d _ => initAt pool d
+  | .mulAddCt _ a b => initAt pool a ∧ initAt pool b
+  | .mulAddPtZnx _ a _ => initAt pool a
+  | .mulAddPtRnx _ a _ => initAt pool a
+  | .mulMany _ as => allAt pool as (fun c => 0 < c.md.logDelta)
+  | .dotCt _ as bs => allAt pool as (fun c => 0 < c.md.logDelta) ∧ allAt pool bs (fun c => 0 < c.md.logDelta)
+  | .dotPtZnx _ as _ => allAt pool as (fun c => 0 < c.md.effK)
+  | .dotPtRnx _ as _ => allAt pool as (fun c => 0 < c.md.effK)
+  | _ => True
+
+theorem putRes_no_panic (pool : Pool) (d : Nat) (r : Res Ct) (h : r.isPanic = false) : (putRes pool d r).isPanic = false := by
+  cases r <;> simp_all [putRes, Res.isPanic]
+
+theorem op1_no_panic (pool : Pool) (d : Nat) (f : Ct → Res Ct)
+    (h : ∀ cd, pool[d]? = some cd → (f cd).isPanic = false) : (op1 pool d f).isPanic = false := by
+  simp only [op1]
+  split
+  · next cd hcd => exact putRes_no_panic _ _ _ (h cd hcd)
+  · simp [Res.isPanic]
+
+theorem op2_no_panic (pool : Pool) (d a : Nat) (f : Ct → Ct → Res Ct)
+    (h : ∀ cd ca, pool[d]? = some cd → pool[a]? = some ca → (f cd ca).isPanic = false) :
+    (op2 pool d a f).isPanic = false := by
+  simp only [op2]
+  split
+  · next cd ca hcd hca =>
+    split
+    · simp [Res.isPanic]
+    · exact putRes_no_panic _ _ _ (h cd ca hcd hca)
+  · simp [Res.isPanic]
+
+theorem op3_no_panic (pool : Pool) (d a b : Nat) (f : Ct → Ct → Ct → Res Ct)
+    (h : ∀ cd ca cb, pool[d]? = some cd → pool[a]? = some ca → pool[b]? = some cb → (f cd ca cb).isPanic = false) :
+    (op3 pool d a b f).isPanic = false := by
+  simp only [op3]
+  split
+  · next cd ca cb hcd hca hcb =>
+    split
+    · simp [Res.isPanic]
+    · exact putRes_no_panic _ _ _ (h cd ca cb hcd hca hcb)
+  · simp [Res.isPanic]
+
+/-- the three facts the step theorems need of one call on the destination -/
+def Good (env : Env) (r : Res Ct) : Prop :=
+  r.isPanic = false ∧ (∀ d', r = .ok d' → d'.inv env) ∧ (∀ e s, r = .err e s → s.inv env)
+
+theorem Good_err (env : Env) (dst : Ct) (e0 : Err) (hd : dst.inv env) : Good env (.err e0 dst) := by
+  refine ⟨rfl, ?_, ?_⟩
+  · intro d' h; cases h
+  · intro e s h; injection h with _ h; exact h ▸ hd
+
+theorem Good_of (env : Env) (dst : Ct) (r : Res Ct) (hd : dst.inv env) (h1 : r.isPanic = false)
+    (h2 : ∀ d', r = .ok d' → d'.inv env) (h3 : ∀ e s, r = .err e s → s = dst) : Good env r :=
+  ⟨h1, h2, fun e s h => h3 e s h ▸ hd⟩
+
+theorem withPt_good (env : Env) (pt : Pt) (dst : Ct) (f : Res Ct) (hd : dst.inv env) (hf : Good env f) :
+    Good env (withPt env pt dst f) := by
+  simp only [withPt, ptBuild]
+  split
+  · next r hr =>
+    split at hr
+    · injection hr with hr; subst hr; exact Good_err env dst _ hd
+    · split at hr
+      · injection hr with hr; subst hr; exact Good_err env dst _ hd
+      · cases hr
+  · exact hf
+
+theorem addMany_good (env : Env) (dst : Ct) (ins : List Ct) (hd : dst.inv env) : Good env (addMany env dst ins) := by
+  rcases addMany_cases env dst ins with ⟨d', h, hi⟩ | ⟨e, h⟩
+  · rw [h]
+    refine ⟨rfl, ?_, ?_⟩
+    · intro d2 h2; injection h2 with h2; exact h2 ▸ hi
+    · intro e s h2; cases h2
+  · rw [h]; exact Good_err env dst e hd
+
+theorem mulMany_good (env : Env) (hw : WF env) (dst : Ct) (ins : List Ct) (hd : dst.inv env)
+    (hin : ∀ c ∈ ins, c.inv env ∧ 0 < c.md.logDelta) : Good env (mulMany env dst ins) :=
+  Good_of env dst _ hd (mulManyRec_no_panic env hw _ _ _ hin)
+    (fun d' h => mulManyRec_ok_inv env hw _ _ _ _ h) (fun e s h => mulManyRec_err env hw _ _ _ _ _ h)
+
+theorem mulInto_good (env : Env) (hw : WF env) (dst a b : Ct) (hd : dst.inv env) (ia : a.inv env) (ib : b.inv env)
+    (pa : 0 < a.md.effK) (pb : 0 < b.md.effK) : Good env (mulInto env dst a b) :=
+  Good_of env dst _ hd (mulInto_no_panic env hw dst a b ia ib pa pb)
+    (fun d' h => (mulInto_ok_inv _ _ _ _ _ h).1) (fun e s h => mulInto_err _ _ _ _ _ _ h)
+
+theorem dotWith_good (env : Env) (dst : Ct) (n : Nat) (first : Ct → Res Ct) (others : List (Ct → Res Ct))
+    (hd : dst.inv env)
+    (hf1 : (first dst).isPanic = false) (hf2 : ∀ d', first dst = .ok d' → d'.inv env) (hf3 : ∀ e s, first dst = .err e s → s = dst)
+    (hp : ∀ t ∈ others, ∀ x, (t x).isPanic = false) : Good env (dotWith env dst n first others) :=
+  dotWith_spec env dst n first others hd hf1 hf2 hf3 hp
+
+theorem dotPtZnx_good (env : Env) (hw : WF env) (dst : Ct) (as : List Ct) (pt : Pt) (hd : dst.inv env)
+    (hin : ∀ c ∈ as, c.inv env ∧ 0 < c.md.effK) : Good env (dotPtZnx env dst as pt) := by
+  match as with
+  | [] => exact Good_err env dst _ hd
+  | a0 :: rest =>
+    simp only [dotPtZnx]
+    have h0 := hin a0 (by simp)
+    refine dotWith_good env dst _ _ _ hd (mulPtZnxInto_no_panic env hw _ _ _ h0.1 h0.2)
+      (fun d' h => (mulPtZnxInto_ok_inv _ _ _ _ _ h).1) (fun e s h => mulPtZnxInto_err _ _ _ _ _ _ h) ?_
+    intro t ht x
+    obtain ⟨a, ha, rfl⟩ := List.mem_map.1 ht
+    have h1 := hin a (List.mem_cons_of_mem _ ha)
+    exact mulPtZnxInto_no_panic env hw _ _ _ h1.1 h1.2
+
+theorem dotPtRnx_good (env : Env) (hw : WF env) (dst : Ct) (as : List Ct) (prec : Meta) (hd : dst.inv env)
+    (hin : ∀ c ∈ as, c.inv env ∧ 0 < c.md.effK) : Good env (dotPtRnx env dst as prec) := by
+  match as with
+  | [] => exact Good_err env dst _ hd
+  | a0 :: rest =>
+    simp only [dotPtRnx]
+    have h0 := hin a0 (by simp)
+    refine dotWith_good env dst _ _ _ hd (mulPtRnxInto_no_panic env hw _ _ _ h0.1 h0.2)
+      (fun d' h => (mulPtRnxInto_ok_inv _ _ _ _ _ h).1) (fun e s h => mulPtRnxInto_err _ _ _ _ _ _ h) ?_
+    intro t ht x
+    obtain ⟨a, ha, rfl⟩ := List.mem_map.1 ht
+    have h1 := hin a (List.mem_cons_of_mem _ ha)
+    exact mulPtRnxInto_no_panic env hw _ _ _ h1.1 h1.2
+
+theorem dotCstRnx_good (env : Env) (hw : WF env) (dst : Ct) (as : List Ct) (prec : Meta) (re im : Bool) (hd : dst.inv env)
+    (hin : ∀ c ∈ as, c.inv env) : Good env (dotCstRnx env dst as prec re im) := by
+  match as with
+  | [] => exact Good_err env dst _ hd
+  | a0 :: rest =>
+    simp only [dotCstRnx]
+    refine dotWith_good env dst _ _ _ hd (mulCstRnx_no_panic env hw _ _ _ _ _ _ (hin a0 (by simp)))
+      (fun d' h => (mulCstRnx_ok_inv _ _ _ _ _ _ _ _ h).1) (fun e s h => mulCstRnx_err _ _ _ _ _ _ _ _ _ h) ?_
+    intro t ht x
+    obtain ⟨a, ha, rfl⟩ := List.mem_map.1 ht
+    exact mulCstRnx_no_panic env hw _ _ _ _ _ _ (hin a (List.mem_cons_of_mem _ ha))
+
+/-- the operand handed to the tensor product in the aligned path has `effective_k = target` and fits -/
+theorem dotOperand_ok (env : Env) (hw : WF env) (aligned : Bool) (l : List Ct) (ld minB : Nat) (c : Ct) (hc : c ∈ l)
+    (hall : aligned = true → l.all (fun z => z.md.logBudget == minB && z.md.logDelta == ld) = true)
+    (hi : c.inv env) (hpos : 0 < ld) :
+    (dotOperand env aligned (minB + ld) ld minB c).md.effK = minB + ld ∧
+    effLimbs env (dotOperand env aligned (minB + ld) ld minB c) ≤ (dotOperand env aligned (minB + ld) ld minB c).size ∧
+    0 < effLimbs env (dotOperand env aligned (minB + ld) ld minB c) := by
+  have key : (dotOperand env aligned (minB + ld) ld minB c).md.effK = minB + ld ∧
+      (dotOperand env aligned (minB + ld) ld minB c).inv env := by
+    cases aligned with
+    | true =>
+      have := List.all_eq_true.1 (hall rfl) c hc
+      simp only [Bool.and_eq_true, beq_iff_eq] at this
+      simp only [dotOperand, if_true, Meta.effK]
+      exact ⟨by omega, hi⟩
+    | false =>
+      simp only [dotOperand, Bool.false_eq_true, if_false, Meta.effK, Ct.inv]
+      exact ⟨by omega, by have := le_divCeil_mul (minB + ld) env.base2k hw; omega⟩
+  refine ⟨key.1, effLimbs_le env hw _ key.2, effLimbs_pos env hw _ (by rw [key.1]; omega)⟩
+
+theorem dotCt_good (env : Env) (hw : WF env) (dst : Ct) (as bs : List Ct) (hd : dst.inv env)
+    (ha : ∀ c ∈ as, c.inv env ∧ 0 < c.md.logDelta) (hb : ∀ c ∈ bs, c.inv env ∧ 0 < c.md.logDelta) :
+    Good env (dotCt env dst as bs) := by
+  cases as with
+  | nil => simp only [dotCt]; repeat' split
+           all_goals exact Good_err env dst _ hd
+  | cons a0 ta =>
+    cases bs with
+    | nil => simp only [dotCt]; repeat' split
+             all_goals exact Good_err env dst _ hd
+    | cons b0 tb =>
+      have h1 := ha a0 (by simp)
+      have h2 := hb b0 (by simp)
+      have g0 := mulInto_good env hw dst a0 b0 hd h1.1 h2.1 (by simp only [Meta.effK]; omega) (by simp only [Meta.effK]; omega)
+      simp only [dotCt]
+      split
+      · exact Good_err env dst _ hd
+      · split
+        · exact Good_err env dst _ hd
+        · split
+          · exact Good_err env dst _ hd
+          · split
+            · exact g0
+            · split
+              · -- deltas not uniform: product of the first pair, the others accumulated
+                cases hm : mulInto env dst a0 b0 with
+                | panic p => rw [hm] at g0; simp [Good, Res.isPanic] at g0
+                | err e s => simp only [Res.bind]; rw [hm] at g0; exact g0
+                | ok d1 =>
+                  simp only [Res.bind]
+                  refine accumulate_spec env _ d1 ((mulInto_ok_inv _ _ _ _ _ hm).1) ?_
+                  intro t ht x
+                  obtain ⟨ab, hab, rfl⟩ := List.mem_map.1 ht
+                  have hz := List.of_mem_zip (List.mem_of_mem_drop hab)
+                  have i1 := ha ab.1 hz.1
+                  have i2 := hb ab.2 hz.2
+                  exact mulInto_no_panic env hw _ _ _ i1.1 i2.1 (by simp only [Meta.effK]; omega) (by simp only [Meta.effK]; omega)
+              · split
+                · split
+                  · -- aligned path: every tensor check passes
+                    have hchk : (List.zip (a0 :: ta) (b0 :: tb)).findSome? (fun (ab : Ct × Ct) =>
+                        tensorCheck env
+                          (dotOperand env ((a0 :: ta).all (fun c => c.md.logBudget == minBudget (a0 :: ta) && c.md.logDelta == a0.md.logDelta))
+                            (minBudget (a0 :: ta) + a0.md.logDelta) a0.md.logDelta (minBudget (a0 :: ta)) ab.1)
+                          (dotOperand env ((b0 :: tb).all (fun c => c.md.logBudget == minBudget (b0 :: tb) && c.md.logDelta == b0.md.logDelta))
+                            (minBudget (b0 :: tb) + b0.md.logDelta) b0.md.logDelta (minBudget (b0 :: tb)) ab.2)
+                          (max (minBudget (a0 :: ta)) (minBudget (b0 :: tb)) + max a0.md.logDelta b0.md.logDelta +
+                            (min (minBudget (a0 :: ta)) (minBudget (b0 :: tb)) - max a0.md.logDelta b0.md.logDelta +
+                              min a0.md.logDelta b0.md.logDelta - dst.maxK env))) = none := by
+                      rw [List.findSome?_eq_none_iff]
+                      intro ab hab
+                      have hz := List.of_mem_zip hab
+                      obtain ⟨e1, l1, p1⟩ := dotOperand_ok env hw _ (a0 :: ta) a0.md.logDelta (minBudget (a0 :: ta)) ab.1 hz.1
+                        (fun h => h) (ha _ hz.1).1 h1.2
+                      obtain ⟨e2, l2, p2⟩ := dotOperand_ok env hw _ (b0 :: tb) b0.md.logDelta (minBudget (b0 :: tb)) ab.2 hz.2
+                        (fun h => h) (hb _ hz.2).1 h2.2
+                      have la := le_divCeil_mul (minBudget (a0 :: ta) + a0.md.logDelta) env.base2k hw
+                      have lb := le_divCeil_mul (minBudget (b0 :: tb) + b0.md.logDelta) env.base2k hw
+                      simp only [tensorCheck]
+                      have hhi : cnvHi env.base2k (max (minBudget (a0 :: ta)) (minBudget (b0 :: tb)) + max a0.md.logDelta b0.md.logDelta +
+                            (min (minBudget (a0 :: ta)) (minBudget (b0 :: tb)) - max a0.md.logDelta b0.md.logDelta +
+                              min a0.md.logDelta b0.md.logDelta - dst.maxK env)) ≤
+                          effLimbs env (dotOperand env ((a0 :: ta).all (fun c => c.md.logBudget == minBudget (a0 :: ta) && c.md.logDelta == a0.md.logDelta))
+                            (minBudget (a0 :: ta) + a0.md.logDelta) a0.md.logDelta (minBudget (a0 :: ta)) ab.1) +
+                          effLimbs env (dotOperand env ((b0 :: tb).all (fun c => c.md.logBudget == minBudget (b0 :: tb) && c.md.logDelta == b0.md.logDelta))
+                            (minBudget (b0 :: tb) + b0.md.logDelta) b0.md.logDelta (minBudget (b0 :: tb)) ab.2) := by
+                        apply cnvHi_le _ _ _ hw
+                        simp only [effLimbs, e1, e2]
+                        rw [Nat.add_mul]
+                        omega
+                      grind
+                    simp only [hchk, finishMul]
+                    refine ⟨rfl, ?_, ?_⟩
+                    · intro d' h; injection h with h; subst h
+                      simp only [Ct.inv, Meta.effK, Ct.maxK] at *
+                      omega
+                    · intro e s h; cases h
+                  · exact Good_err env dst _ hd
+                · exact Good_err env dst _ hd
+
+/-! ### pool plumbing for list operands -/
+
+theorem opN_good (env : Env) (pool : Pool) (d : Nat) (as : List Nat) (f : Ct → List Ct → Res Ct) (hI : Inv env pool)
+    (hf : ∀ cd cs, pool[d]? = some cd → getAll pool d as = some cs → Good env (f cd cs)) :
+    (opN pool d as f).isPanic = false ∧ (∀ pool', opN pool d as f = .ok pool' → Inv env pool') ∧
+    (∀ e pool', opN pool d as f = .err e pool' → Inv env pool') := by
+  simp only [opN]
+  split
+  · next cd cs hcd hcs =>
+    obtain ⟨g1, g2, g3⟩ := hf cd cs hcd hcs
+    refine ⟨putRes_no_panic _ _ _ g1, ?_, ?_⟩
+    · intro pool' h
+      obtain ⟨c, h1, rfl⟩ := putRes_ok _ _ _ _ h
+      exact Inv_set _ _ _ _ hI (g2 c h1)
+    · intro e pool' h
+      obtain ⟨c, h1, rfl⟩ := putRes_err _ _ _ _ _ h
+      exact Inv_set _ _ _ _ hI (g3 e c h1)
+  · refine ⟨rfl, ?_, ?_⟩
+    · intro pool' h; cases h
+    · intro e pool' h; injection h with _ h; exact h ▸ hI
+
+theorem opNN_good (env : Env) (pool : Pool) (d : Nat) (as bs : List Nat) (f : Ct → List Ct → List Ct → Res Ct) (hI : Inv env pool)
+    (hf : ∀ cd ca cb, pool[d]? = some cd → getAll pool d as = some ca → getAll pool d bs = some cb → Good env (f cd ca cb)) :
+    (opNN pool d as bs f).isPanic = false ∧ (∀ pool', opNN pool d as bs f = .ok pool' → Inv env pool') ∧
+    (∀ e pool', opNN pool d as bs f = .err e pool' → Inv env pool') := by
+  simp only [opNN]
+  split
+  · next cd ca cb hcd hca hcb =>
+    obtain ⟨g1, g2, g3⟩ := hf cd ca cb hcd hca hcb
+    refine ⟨putRes_no_panic _ _ _ g1, ?_, ?_⟩
+    · intro pool' h
+      obtain ⟨c, h1, rfl⟩ := putRes_ok _ _ _ _ h
+      exact Inv_set _ _ _ _ hI (g2 c h1)
+    · intro e pool' h
+      obtain ⟨c, h1, rfl⟩ := putRes_err _ _ _ _ _ h
+      exact Inv_set _ _ _ _ hI (g3 e c h1)
+  · refine ⟨rfl, ?_, ?_⟩
+    · intro pool' h; cases h
+    · intro e pool' h; injection h with _ h; exact h ▸ hI
+
+theorem getAll_prop (pool : Pool) (d : Nat) (P : Ct → Prop) : ∀ (as : List Nat) (cs : List Ct),
+    getAll pool d as = some cs → allAt pool as P → ∀ c ∈ cs, P c := by
+  intro as
+  induction as with
+  | nil => intro cs h _ c hc; simp [getAll] at h; subst h; cases hc
+  | cons a as ih =>
+    intro cs h hall c hc
+    simp only [getAll] at h
+    split at h
+    · cases h
+    · split at h
+      · next x xs hx hxs =>
+        injection h with h; subst h
+        rcases List.mem_cons.1 hc with rfl | hc
+        · exact hall a (by simp) _ hx
+        · exact ih xs hxs (fun a' ha' => hall a' (List.mem_cons_of_mem _ ha')) c hc
+      · cases h
+
+/-! ### hypothesis-free part: whatever a composite call returns (Ok or Err) fits its storage -/
+
+def Good2 (env : Env) (r : Res Ct) : Prop :=
+  (∀ d', r = .ok d' → d'.inv env) ∧ (∀ e s, r = .err e s → s.inv env)
+
+theorem Good2_err (env : Env) (dst : Ct) (e0 : Err) (hd : dst.inv env) : Good2 env (.err e0 dst) := by
+  refine ⟨?_, ?_⟩
+  · intro d' h; cases h
+  · intro e s h; injection h with _ h; exact h ▸ hd
+
+theorem Good2_panic (env : Env) (p : Panic) : Good2 env (.panic p) := by
+  refine ⟨?_, ?_⟩
+  · intro d' h; cases h
+  · intro e s h; cases h
+
+theorem Good2_of (env : Env) (dst : Ct) (r : Res Ct) (hd : dst.inv env)
+    (h2 : ∀ d', r = .ok d' → d'.inv env) (h3 : ∀ e s, r = .err e s → s = dst) : Good2 env r :=
+  ⟨h2, fun e s h => h3 e s h ▸ hd⟩
+
+theorem Good.to2 {env : Env} {r : Res Ct} (h : Good env r) : Good2 env r := ⟨h.2.1, h.2.2⟩
+
+theorem accumulate_panic_fold (env : Env) : ∀ (ts : List (Ct → Res Ct)) (p : Panic),
+    ts.foldl (accStep env) (Res.panic p) = Res.panic p := by
+  intro ts
+  induction ts with
+  | nil => intro p; rfl
+  | cons t ts ih => intro p; simp only [List.foldl, accStep, Res.bind]; exact ih p
+
+theorem accumulate_good2 (env : Env) : ∀ (terms : List (Ct → Res Ct)) (d : Ct), d.inv env →
+    Good2 env (accumulate env d terms) := by
+  intro terms
+  induction terms with
+  | nil =>
+    intro d hd
+    refine ⟨?_, ?_⟩
+    · intro d' h; simp [accumulate] at h; exact h ▸ hd
+    · intro e s h; simp [accumulate] at h
+  | cons t ts ih =>
+    intro d hd
+    have hstep : accumulate env d (t :: ts) = ts.foldl (accStep env) (accStep env (.ok d) t) := rfl
+    rw [hstep]
+    cases ht : t (mulTmp d) with
+    | panic p =>
+      have hs : accStep env (.ok d) t = .panic p := by simp only [accStep, Res.bind, ht]
+      rw [hs, accumulate_panic_fold]; exact Good2_panic env p
+    | err e x =>
+      have hs : accStep env (.ok d) t = .err e d := by simp only [accStep, Res.bind, ht]
+      rw [hs, accumulate_err_fold]; exact Good2_err env d e hd
+    | ok tmp =>
+      obtain ⟨d1, h1⟩ := addCtAssign_total env d tmp
+      have i1 := (addCtAssign_ok_inv env d tmp d1 hd h1).1
+      have hs : accStep env (.ok d) t = .ok d1 := by simp only [accStep, Res.bind, ht, h1]
+      rw [hs]
+      exact ih d1 i1
+
+theorem dotWith_good2 (env : Env) (dst : Ct) (n : Nat) (first : Ct → Res Ct) (others : List (Ct → Res Ct))
+    (hd : dst.inv env) (hf2 : ∀ d', first dst = .ok d' → d'.inv env) (hf3 : ∀ e s, first dst = .err e s → s = dst) :
+    Good2 env (dotWith env dst n first others) := by
+  simp only [dotWith]
+  split
+  · exact Good2_err env dst _ hd
+  · split
+    · exact Good2_err env dst _ hd
+    · cases hfd : first dst with
+      | panic p => simp only [Res.bind]; exact Good2_panic env p
+      | err e s => simp only [Res.bind]; rw [hf3 e s hfd]; exact Good2_err env dst e hd
+      | ok d1 => simp only [Res.bind]; exact accumulate_good2 env others d1 (hf2 d1 hfd)
+
+theorem addMany_good2 (env : Env) (dst : Ct) (ins : List Ct) (hd : dst.inv env) : Good2 env (addMany env dst ins) :=
+  (addMany_good env dst ins hd).to2
+
+theorem mulMany_good2 (env : Env) (hw : WF env) (dst : Ct) (ins : List Ct) (hd : dst.inv env) :
+    Good2 env (mulMany env dst ins) :=
+  Good2_of env dst _ hd (fun d' h => mulManyRec_ok_inv env hw _ _ _ _ h) (fun e s h => mulManyRec_err env hw _ _ _ _ _ h)
+
+theorem dotPtZnx_good2 (env : Env) (dst : Ct) (as : List Ct) (pt : Pt) (hd : dst.inv env) :
+    Good2 env (dotPtZnx env dst as pt) := by
+  match as with
+  | [] => exact Good2_err env dst _ hd
+  | a0 :: rest =>
+    simp only [dotPtZnx]
+    exact dotWith_good2 env dst _ _ _ hd (fun d' h => (mulPtZnxInto_ok_inv _ _ _ _ _ h).1)
+      (fun e s h => mulPtZnxInto_err _ _ _ _ _ _ h)
+
+theorem dotPtRnx_good2 (env : Env) (dst : Ct) (as : List Ct) (prec : Meta) (hd : dst.inv env) :
+    Good2 env (dotPtRnx env dst as prec) := by
+  match as with
+  | [] => exact Good2_err env dst _ hd
+  | a0 :: rest =>
+    simp only [dotPtRnx]
+    exact dotWith_good2 env dst _ _ _ hd (fun d' h => (mulPtRnxInto_ok_inv _ _ _ _ _ h).1)
+      (fun e s h => mulPtRnxInto_err _ _ _ _ _ _ h)
+
+theorem dotCstRnx_good2 (env : Env) (dst : Ct) (as : List Ct) (prec : Meta) (re im : Bool) (hd : dst.inv env) :
+    Good2 env (dotCstRnx env dst as prec re im) := by
+  match as with
+  | [] => exact Good2_err env dst _ hd
+  | a0 :: rest =>
+    simp only [dotCstRnx]
+    exact dotWith_good2 env dst _ _ _ hd (fun d' h => (mulCstRnx_ok_inv _ _ _ _ _ _ _ _ h).1)
+      (fun e s h => mulCstRnx_err _ _ _ _ _ _ _ _ _ h)
+
+theorem finishMul_good2 (env : Env) (dst : Ct) (p : MulP) (chk : Option Panic)
+    (h : p.delta + p.budget ≤ dst.size * env.base2k) : Good2 env (finishMul dst p chk) := by
+  cases chk with
+  | some pn => exact Good2_panic env pn
+  | none =>
+    refine ⟨?_, ?_⟩
+    · intro d' hh; simp only [finishMul] at hh; injection hh with hh; subst hh
+      simp only [Ct.inv, Meta.effK]; omega
+    · intro e s hh; simp [finishMul] at hh
+
+theorem withPt_good2 (env : Env) (pt : Pt) (dst : Ct) (f : Res Ct) (hd : dst.inv env) (hf : Good2 env f) :
+    Good2 env (withPt env pt dst f) := by
+  simp only [withPt, ptBuild]
+  split
+  · next r hr =>
+    split at hr
+    · injection hr with hr; subst hr; exact Good2_err env dst _ hd
+    · split at hr
+      · injection hr with hr; subst hr; exact Good2_err env dst _ hd
+      · cases hr
+  · exact hf
+
+theorem dotCt_good2 (env : Env) (dst : Ct) (as bs : List Ct) (hd : dst.inv env) : Good2 env (dotCt env dst as bs) := by
+  have gm : ∀ a b, Good2 env (mulInto env dst a b) := fun a b =>
+    Good2_of env dst _ hd (fun d' h => (mulInto_ok_inv _ _ _ _ _ h).1) (fun e s h => mulInto_err _ _ _ _ _ _ h)
+  cases as with
+  | nil => simp only [dotCt]; repeat' split
+           all_goals exact Good2_err env dst _ hd
+  | cons a0 ta =>
+    cases bs with
+    | nil => simp only [dotCt]; repeat' split
+             all_goals exact Good2_err env dst _ hd
+    | cons b0 tb =>
+      simp only [dotCt]
+      split
+      · exact Good2_err env dst _ hd
+      · split
+        · exact Good2_err env dst _ hd
+        · split
+          · exact Good2_err env dst _ hd
+          · split
+            · exact gm a0 b0
+            · split
+              · cases hm : mulInto env dst a0 b0 with
+                | panic p => simp only [Res.bind]; exact Good2_panic env p
+                | err e s => simp only [Res.bind]; have := gm a0 b0; rw [hm] at this; exact this
+                | ok d1 => simp only [Res.bind]; exact accumulate_good2 env _ d1 ((mulInto_ok_inv _ _ _ _ _ hm).1)
+              · split
+                · split
+                  · apply finishMul_good2
+                    simp only [Ct.maxK] at *
+                    omega
+                  · exact Good2_err env dst _ hd
+                · exact Good2_err env dst _ hd
+
+theorem opN_good2 (env : Env) (pool : Pool) (d : Nat) (as : List Nat) (f : Ct → List Ct → Res Ct) (hI : Inv env pool)
+    (hf : ∀ cd cs, pool[d]? = some cd → getAll pool d as = some cs → Good2 env (f cd cs)) :
+    (∀ pool', opN pool d as f = .ok pool' → Inv env pool') ∧
+    (∀ e pool', opN pool d as f = .err e pool' → Inv env pool') := by
+  simp only [opN]
+  split
+  · next cd cs hcd hcs =>
+    obtain ⟨g2, g3⟩ := hf cd cs hcd hcs
+    refine ⟨?_, ?_⟩
+    · intro pool' h
+      obtain ⟨c, h1, rfl⟩ := putRes_ok _ _ _ _ h
+      exact Inv_set _ _ _ _ hI (g2 c h1)
+    · intro e pool' h
+      obtain ⟨c, h1, rfl⟩ := putRes_err _ _ _ _ _ h
+      exact Inv_set _ _ _ _ hI (g3 e c h1)
+  · refine ⟨?_, ?_⟩
+    · intro pool' h; cases h
+    · intro e pool' h; injection h with _ h; exact h ▸ hI
+
+theorem opNN_good2 (env : Env) (pool : Pool) (d : Nat) (as bs : List Nat) (f : Ct → List Ct → List Ct → Res Ct) (hI : Inv env pool)
+    (hf : ∀ cd ca cb, pool[d]? = some cd → getAll pool d as = some ca → getAll pool d bs = some cb → Good2 env (f cd ca cb)) :
+    (∀ pool', opNN pool d as bs f = .ok pool' → Inv env pool') ∧
+    (∀ e pool', opNN pool d as bs f = .err e pool' → Inv env pool') := by
+  simp only [opNN]
+  split
+  · next cd ca cb hcd hca hcb =>
+    obtain ⟨g2, g3⟩ := hf cd ca cb hcd hca hcb
+    refine ⟨?_, ?_⟩
+    · intro pool' h
+      obtain ⟨c, h1, rfl⟩ := putRes_ok _ _ _ _ h
+      exact Inv_set _ _ _ _ hI (g2 c h1)
+    · intro e pool' h
+      obtain ⟨c, h1, rfl⟩ := putRes_err _ _ _ _ _ h
+      exact Inv_set _ _ _ _ hI (g3 e c h1)
+  · refine ⟨?_, ?_⟩
+    · intro pool' h; cases h
+    · intro e pool' h; injection h with _ h; exact h ▸ hI
+
+/-- the six composite operations: Ok and Err states fit their storage, no hypothesis -/
+theorem composite_inv (env : Env) (hw : WF env) (pool : Pool) (hI : Inv env pool) (op : Op) :
+    (match op with
+     | .addMany .. | .mulMany .. | .dotCt .. | .dotPtZnx .. | .dotPtRnx .. | .dotCstRnx .. => True
+     | _ => False) →
+    (∀ pool', stepR env pool op = .ok pool' → Inv env pool') ∧
+    (∀ e pool', stepR env pool op = .err e pool' → Inv env pool') := by
+  have inv : ∀ (i : Nat) (c : Ct), pool[i]? = some c → c.inv env := fun i c h => hI _ (mem_of_get? _ _ _ h)
+  intro hop
+  cases op <;> simp only at hop <;> simp only [stepR]
+  case addMany d as => exact opN_good2 env pool d as _ hI (fun cd cs hcd _ => addMany_good2 env cd cs (inv _ _ hcd))
+  case mulMany d as => exact opN_good2 env pool d as _ hI (fun cd cs hcd _ => mulMany_good2 env hw cd cs (inv _ _ hcd))
+  case dotCt d as bs => exact opNN_good2 env pool d as bs _ hI (fun cd ca cb hcd _ _ => dotCt_good2 env cd ca cb (inv _ _ hcd))
+  case dotPtZnx d as pt =>
+    exact opN_good2 env pool d as _ hI (fun cd cs hcd _ => withPt_good2 env pt cd _ (inv _ _ hcd) (dotPtZnx_good2 env cd cs pt (inv _ _ hcd)))
+  case dotPtRnx d as prec => exact opN_good2 env pool d as _ hI (fun cd cs hcd _ => dotPtRnx_good2 env cd cs prec (inv _ _ hcd))
+  case dotCstRnx d as prec re im =>
+    exact opN_good2 env pool d as _ hI (fun cd cs hcd _ => dotCstRnx_good2 env cd cs prec re im (inv _ _ hcd))
 
 /-- one `ok` API call preserves `log_delta + log_budget ≤ max_k` on every ciphertext of the pool -/
 theorem stepR_ok_inv (env : Env) (hw : WF env) (pool pool' : Pool) (op : Op) (hI : Inv env pool)
@@ -876,61 +1948,13 @@ theorem stepR_ok_inv (env : Env) (hw : WF env) (pool pool' : Pool) (op : Op) (hI
     obtain ⟨cd, c, hcd, hf, rfl⟩ := op1_ok _ _ _ _ h
     have := decrypt_ok _ _ _ _ hf
     exact Inv_set _ _ _ _ hI (this ▸ hI _ (mem_of_get? _ _ _ hcd))
-
-/-! ## the hypothesis under which a call cannot panic -/
-
-/-- the ciphertext in slot `i` holds a value: `effective_k > 0` (it was produced by an encryption or
-an evaluation, not merely allocated) -/
-def initAt (pool : Pool) (i : Nat) : Prop := ∀ c, pool[i]? = some c → 0 < c.md.effK
-
-/-- `Initialised env pool op`: the ciphertext operands of a ct×ct / ct×plaintext-vector multiplication
-have been given a value.  A merely allocated buffer has `effective_k = 0` and narrows to zero limbs,
-which the FFT64 convolution rejects with a panic (NTT120 accepts it). -/
-def Initialised (_env : Env) (pool : Pool) : Op → Prop
-  | .mul _ a b => initAt pool a ∧ initAt pool b
-  | .mulAssign d a => initAt pool d ∧ initAt pool a
-  | .square _ a => initAt pool a
-  | .squareAssign d => initAt pool d
-  | .mulPtZnx _ a _ => initAt pool a
-  | .mulPtZnxAssign d _ => initAt pool d
-  | .mulPtRnx _ a _ => initAt pool a
-  | .mulPtRnxAssign d _ => initAt pool d
-  | .mulAddCt _ a b => initAt pool a ∧ initAt pool b
-  | .mulAddPtZnx _ a _ => initAt pool a
-  | .mulAddPtRnx _ a _ => initAt pool a
-  | _ => True
-
-theorem putRes_no_panic (pool : Pool) (d : Nat) (r : Res Ct) (h : r.isPanic = false) : (putRes pool d r).isPanic = false := by
-  cases r <;> simp_all [putRes, Res.isPanic]
-
-theorem op1_no_panic (pool : Pool) (d : Nat) (f : Ct → Res Ct)
-    (h : ∀ cd, pool[d]? = some cd → (f cd).isPanic = false) : (op1 pool d f).isPanic = false := by
-  simp only [op1]
-  split
-  · next cd hcd => exact putRes_no_panic _ _ _ (h cd hcd)
-  · simp [Res.isPanic]
-
-theorem op2_no_panic (pool : Pool) (d a : Nat) (f : Ct → Ct → Res Ct)
-    (h : ∀ cd ca, pool[d]? = some cd → pool[a]? = some ca → (f cd ca).isPanic = false) :
-    (op2 pool d a f).isPanic = false := by
-  simp only [op2]
-  split
-  · next cd ca hcd hca =>
-    split
-    · simp [Res.isPanic]
-    · exact putRes_no_panic _ _ _ (h cd ca hcd hca)
-  · simp [Res.isPanic]
-
-theorem op3_no_panic (pool : Pool) (d a b : Nat) (f : Ct → Ct → Ct → Res Ct)
-    (h : ∀ cd ca cb, pool[d]? = some cd → pool[a]? = some ca → pool[b]? = some cb → (f cd ca cb).isPanic = false) :
-    (op3 pool d a b f).isPanic = false := by
-  simp only [op3]
-  split
-  · next cd ca cb hcd hca hcb =>
-    split
-    · simp [Res.isPanic]
-    · exact putRes_no_panic _ _ _ (h cd ca cb hcd hca hcb)
-  · simp [Res.isPanic]
+  case addMany d as => exact (composite_inv env hw pool hI (.addMany d as) trivial).1 pool' (by simpa only [stepR] using h)
+  case mulMany d as => exact (composite_inv env hw pool hI (.mulMany d as) trivial).1 pool' (by simpa only [stepR] using h)
+  case dotCt d as bs => exact (composite_inv env hw pool hI (.dotCt d as bs) trivial).1 pool' (by simpa only [stepR] using h)
+  case dotPtZnx d as pt => exact (composite_inv env hw pool hI (.dotPtZnx d as pt) trivial).1 pool' (by simpa only [stepR] using h)
+  case dotPtRnx d as prec => exact (composite_inv env hw pool hI (.dotPtRnx d as prec) trivial).1 pool' (by simpa only [stepR] using h)
+  case dotCstRnx d as prec re im =>
+    exact (composite_inv env hw pool hI (.dotCstRnx d as prec re im) trivial).1 pool' (by simpa only [stepR] using h)
 
 theorem alignStep_no_panic (env : Env) (pool : Pool) (a b : Nat) : (alignStep env pool a b).isPanic = false := by
   simp only [alignStep, usub]
@@ -1024,6 +2048,25 @@ theorem stepR_no_panic (env : Env) (hw : WF env) (pool : Pool) (op : Op) (hI : I
   case compactCopy d a => exact op2_no_panic _ _ _ _ (fun _ ca _ hca => compactCopy_no_panic _ hw _ _ (inv _ _ hca))
   case setMeta d m => exact op1_no_panic _ _ _ (fun _ _ => setMeta_no_panic _ _ _)
   case dec a pt => exact op1_no_panic _ _ _ (fun _ _ => decrypt_no_panic _ _ _)
+  case addMany d as => exact (opN_good env pool d as _ hI (fun cd cs hcd _ => addMany_good env cd cs (inv _ _ hcd))).1
+  case mulMany d as =>
+    refine (opN_good env pool d as _ hI (fun cd cs hcd hcs => mulMany_good env hw cd cs (inv _ _ hcd) ?_)).1
+    intro c hc
+    exact ⟨hI c (getAll_mem pool d as cs hcs c hc), getAll_prop pool d _ as cs hcs hs c hc⟩
+  case dotCt d as bs =>
+    refine (opNN_good env pool d as bs _ hI (fun cd ca cb hcd hca hcb => dotCt_good env hw cd ca cb (inv _ _ hcd) ?_ ?_)).1
+    · intro c hc; exact ⟨hI c (getAll_mem pool d as ca hca c hc), getAll_prop pool d _ as ca hca hs.1 c hc⟩
+    · intro c hc; exact ⟨hI c (getAll_mem pool d bs cb hcb c hc), getAll_prop pool d _ bs cb hcb hs.2 c hc⟩
+  case dotPtZnx d as pt =>
+    refine (opN_good env pool d as _ hI (fun cd cs hcd hcs =>
+      withPt_good env pt cd _ (inv _ _ hcd) (dotPtZnx_good env hw cd cs pt (inv _ _ hcd) ?_))).1
+    intro c hc; exact ⟨hI c (getAll_mem pool d as cs hcs c hc), getAll_prop pool d _ as cs hcs hs c hc⟩
+  case dotPtRnx d as prec =>
+    refine (opN_good env pool d as _ hI (fun cd cs hcd hcs => dotPtRnx_good env hw cd cs prec (inv _ _ hcd) ?_)).1
+    intro c hc; exact ⟨hI c (getAll_mem pool d as cs hcs c hc), getAll_prop pool d _ as cs hcs hs c hc⟩
+  case dotCstRnx d as prec re im =>
+    refine (opN_good env pool d as _ hI (fun cd cs hcd hcs => dotCstRnx_good env hw cd cs prec re im (inv _ _ hcd) ?_)).1
+    intro c hc; exact hI c (getAll_mem pool d as cs hcs c hc)
 
 /-! ## programs -/
 
@@ -1063,5 +2106,236 @@ theorem run_no_panic (env : Env) (hw : WF env) (prog : List Op) :
       | ok s1 => exact absurd hr (hne s1)
       | err e s1 => rfl
       | panic p => rw [hr] at hp; simp [Res.isPanic] at hp
+
+/-- an `Err` call also leaves every ciphertext of the pool within its storage -/
+theorem stepR_err_inv (env : Env) (hw : WF env) (pool pool' : Pool) (op : Op) (e : Err) (hI : Inv env pool)
+    (h : stepR env pool op = .err e pool') : Inv env pool' := by
+  have inv : ∀ (i : Nat) (c : Ct), pool[i]? = some c → c.inv env := fun i c h => hI _ (mem_of_get? _ _ _ h)
+  cases op <;> simp only [stepR] at h
+  case enc d k pt =>
+    rcases op1_err _ _ _ _ _ h with rfl | ⟨cd, c, hcd, hf, rfl⟩
+    · exact hI
+    · rcases withPt_err _ _ _ _ _ _ hf with h1 | h1
+      · exact h1 ▸ Inv_set_self _ _ _ _ hI hcd
+      · exact Inv_set _ _ _ _ hI (encrypt_err_inv _ _ _ _ _ _ (inv _ _ hcd) h1)
+  case addCt d a b =>
+    rcases op3_err _ _ _ _ _ _ _ h with rfl | ⟨cd, ca, cb, c, hcd, hca, hcb, hf, rfl⟩
+    · exact hI
+    · exact addCtInto_err _ _ _ _ _ _ hf ▸ Inv_set_self _ _ _ _ hI hcd
+  case addCtAssign d a =>
+    rcases op2_err _ _ _ _ _ _ h with rfl | ⟨cd, ca, c, hcd, hca, hf, rfl⟩
+    · exact hI
+    · exact absurd hf (addCtAssign_not_err _ _ _ _ _)
+  case addPtZnx d a pt =>
+    rcases op2_err _ _ _ _ _ _ h with rfl | ⟨cd, ca, c, hcd, hca, hf, rfl⟩
+    · exact hI
+    · rcases withPt_err _ _ _ _ _ _ hf with h1 | h1
+      · exact h1 ▸ Inv_set_self _ _ _ _ hI hcd
+      · exact Inv_set _ _ _ _ hI (addPtZnxInto_err_inv _ _ _ _ _ _ (inv _ _ hcd) h1)
+  case addPtZnxAssign d pt =>
+    rcases op1_err _ _ _ _ _ h with rfl | ⟨cd, c, hcd, hf, rfl⟩
+    · exact hI
+    · rcases withPt_err _ _ _ _ _ _ hf with h1 | h1
+      · exact h1 ▸ Inv_set_self _ _ _ _ hI hcd
+      · exact ptAlign_err _ _ _ _ _ h1 ▸ Inv_set_self _ _ _ _ hI hcd
+  case addPtRnx d a prec =>
+    rcases op2_err _ _ _ _ _ _ h with rfl | ⟨cd, ca, c, hcd, hca, hf, rfl⟩
+    · exact hI
+    · exact Inv_set _ _ _ _ hI (addPtRnxInto_err_inv _ _ _ _ _ _ (inv _ _ hcd) hf)
+  case addPtRnxAssign d prec =>
+    rcases op1_err _ _ _ _ _ h with rfl | ⟨cd, c, hcd, hf, rfl⟩
+    · exact hI
+    · exact addPtRnxAssign_err _ _ _ _ _ hf ▸ Inv_set_self _ _ _ _ hI hcd
+  case addCstRnx d a prec re im =>
+    rcases op2_err _ _ _ _ _ _ h with rfl | ⟨cd, ca, c, hcd, hca, hf, rfl⟩
+    · exact hI
+    · exact Inv_set _ _ _ _ hI (addCstRnxInto_err_inv _ _ _ _ _ _ _ _ (inv _ _ hcd) hf)
+  case addCstRnxAssign d prec re im =>
+    rcases op1_err _ _ _ _ _ h with rfl | ⟨cd, c, hcd, hf, rfl⟩
+    · exact hI
+    · exact addCstRnxAssign_err _ _ _ _ _ _ _ hf ▸ Inv_set_self _ _ _ _ hI hcd
+  case addCstZnx d a k ld re im =>
+    rcases op2_err _ _ _ _ _ _ h with rfl | ⟨cd, ca, c, hcd, hca, hf, rfl⟩
+    · exact hI
+    · exact Inv_set _ _ _ _ hI (addCstZnxIntoK_err_inv _ _ _ _ _ _ _ _ _ (inv _ _ hcd) hf)
+  case addCstZnxAssign d k ld re im =>
+    rcases op1_err _ _ _ _ _ h with rfl | ⟨cd, c, hcd, hf, rfl⟩
+    · exact hI
+    · exact addCstZnxAssignK_err _ _ _ _ _ _ _ _ hf ▸ Inv_set_self _ _ _ _ hI hcd
+  case neg d a =>
+    rcases op2_err _ _ _ _ _ _ h with rfl | ⟨cd, ca, c, hcd, hca, hf, rfl⟩
+    · exact hI
+    · exact negInto_err _ _ _ _ _ hf ▸ Inv_set_self _ _ _ _ hI hcd
+  case negAssign d =>
+    rcases op1_err _ _ _ _ _ h with rfl | ⟨cd, c, hcd, hf, rfl⟩
+    · exact hI
+    · cases hf
+  case mul d a b =>
+    rcases op3_err _ _ _ _ _ _ _ h with rfl | ⟨cd, ca, cb, c, hcd, hca, hcb, hf, rfl⟩
+    · exact hI
+    · exact mulInto_err _ _ _ _ _ _ hf ▸ Inv_set_self _ _ _ _ hI hcd
+  case mulAssign d a =>
+    rcases op2_err _ _ _ _ _ _ h with rfl | ⟨cd, ca, c, hcd, hca, hf, rfl⟩
+    · exact hI
+    · exact mulInto_err _ _ _ _ _ _ hf ▸ Inv_set_self _ _ _ _ hI hcd
+  case square d a =>
+    rcases op2_err _ _ _ _ _ _ h with rfl | ⟨cd, ca, c, hcd, hca, hf, rfl⟩
+    · exact hI
+    · exact squareInto_err _ _ _ _ _ hf ▸ Inv_set_self _ _ _ _ hI hcd
+  case squareAssign d =>
+    rcases op1_err _ _ _ _ _ h with rfl | ⟨cd, c, hcd, hf, rfl⟩
+    · exact hI
+    · exact squareInto_err _ _ _ _ _ hf ▸ Inv_set_self _ _ _ _ hI hcd
+  case mulPtZnx d a pt =>
+    rcases op2_err _ _ _ _ _ _ h with rfl | ⟨cd, ca, c, hcd, hca, hf, rfl⟩
+    · exact hI
+    · rcases withPt_err _ _ _ _ _ _ hf with h1 | h1
+      · exact h1 ▸ Inv_set_self _ _ _ _ hI hcd
+      · exact mulPtZnxInto_err _ _ _ _ _ _ h1 ▸ Inv_set_self _ _ _ _ hI hcd
+  case mulPtZnxAssign d pt =>
+    rcases op1_err _ _ _ _ _ h with rfl | ⟨cd, c, hcd, hf, rfl⟩
+    · exact hI
+    · rcases withPt_err _ _ _ _ _ _ hf with h1 | h1
+      · exact h1 ▸ Inv_set_self _ _ _ _ hI hcd
+      · exact mulPtZnxInto_err _ _ _ _ _ _ h1 ▸ Inv_set_self _ _ _ _ hI hcd
+  case mulPtRnx d a prec =>
+    rcases op2_err _ _ _ _ _ _ h with rfl | ⟨cd, ca, c, hcd, hca, hf, rfl⟩
+    · exact hI
+    · exact mulPtRnxInto_err _ _ _ _ _ _ hf ▸ Inv_set_self _ _ _ _ hI hcd
+  case mulPtRnxAssign d prec =>
+    rcases op1_err _ _ _ _ _ h with rfl | ⟨cd, c, hcd, hf, rfl⟩
+    · exact hI
+    · exact mulPtRnxInto_err _ _ _ _ _ _ hf ▸ Inv_set_self _ _ _ _ hI hcd
+  case mulCstRnx d a prec re im =>
+    rcases op2_err _ _ _ _ _ _ h with rfl | ⟨cd, ca, c, hcd, hca, hf, rfl⟩
+    · exact hI
+    · exact mulCstRnx_err _ _ _ _ _ _ _ _ _ hf ▸ Inv_set_self _ _ _ _ hI hcd
+  case mulCstRnxAssign d prec re im =>
+    rcases op1_err _ _ _ _ _ h with rfl | ⟨cd, c, hcd, hf, rfl⟩
+    · exact hI
+    · exact mulCstRnx_err _ _ _ _ _ _ _ _ _ hf ▸ Inv_set_self _ _ _ _ hI hcd
+  case mulAddCt d a b =>
+    rcases op3_err _ _ _ _ _ _ _ h with rfl | ⟨cd, ca, cb, c, hcd, hca, hcb, hf, rfl⟩
+    · exact hI
+    · exact mulAddWith_err _ _ _ _ _ hf ▸ Inv_set_self _ _ _ _ hI hcd
+  case mulAddPtZnx d a pt =>
+    rcases op2_err _ _ _ _ _ _ h with rfl | ⟨cd, ca, c, hcd, hca, hf, rfl⟩
+    · exact hI
+    · rcases withPt_err _ _ _ _ _ _ hf with h1 | h1
+      · exact h1 ▸ Inv_set_self _ _ _ _ hI hcd
+      · exact mulAddWith_err _ _ _ _ _ h1 ▸ Inv_set_self _ _ _ _ hI hcd
+  case mulAddPtRnx d a prec =>
+    rcases op2_err _ _ _ _ _ _ h with rfl | ⟨cd, ca, c, hcd, hca, hf, rfl⟩
+    · exact hI
+    · exact mulAddWith_err _ _ _ _ _ hf ▸ Inv_set_self _ _ _ _ hI hcd
+  case mulAddCstRnx d a prec re im =>
+    rcases op2_err _ _ _ _ _ _ h with rfl | ⟨cd, ca, c, hcd, hca, hf, rfl⟩
+    · exact hI
+    · simp only [mulAddCstRnx] at hf
+      split at hf
+      · cases hf
+      · exact mulAddWith_err _ _ _ _ _ hf ▸ Inv_set_self _ _ _ _ hI hcd
+  case mulPow2 d a bits =>
+    rcases op2_err _ _ _ _ _ _ h with rfl | ⟨cd, ca, c, hcd, hca, hf, rfl⟩
+    · exact hI
+    · exact shiftInto_err _ _ _ _ _ _ hf ▸ Inv_set_self _ _ _ _ hI hcd
+  case mulPow2Assign d bits =>
+    rcases op1_err _ _ _ _ _ h with rfl | ⟨cd, c, hcd, hf, rfl⟩
+    · exact hI
+    · cases hf
+  case divPow2 d a bits =>
+    rcases op2_err _ _ _ _ _ _ h with rfl | ⟨cd, ca, c, hcd, hca, hf, rfl⟩
+    · exact hI
+    · exact divPow2Into_err _ _ _ _ _ _ hf ▸ Inv_set_self _ _ _ _ hI hcd
+  case divPow2Assign d bits =>
+    rcases op1_err _ _ _ _ _ h with rfl | ⟨cd, c, hcd, hf, rfl⟩
+    · exact hI
+    · exact divPow2Assign_err _ _ _ _ _ hf ▸ Inv_set_self _ _ _ _ hI hcd
+  case rot d a k =>
+    rcases op2_err _ _ _ _ _ _ h with rfl | ⟨cd, ca, c, hcd, hca, hf, rfl⟩
+    · exact hI
+    · exact rotateInto_err _ _ _ _ _ _ hf ▸ Inv_set_self _ _ _ _ hI hcd
+  case rotAssign d k =>
+    rcases op1_err _ _ _ _ _ h with rfl | ⟨cd, c, hcd, hf, rfl⟩
+    · exact hI
+    · exact rotateAssign_err _ _ _ _ _ hf ▸ Inv_set_self _ _ _ _ hI hcd
+  case conj d a =>
+    rcases op2_err _ _ _ _ _ _ h with rfl | ⟨cd, ca, c, hcd, hca, hf, rfl⟩
+    · exact hI
+    · exact shiftInto_err _ _ _ _ _ _ hf ▸ Inv_set_self _ _ _ _ hI hcd
+  case conjAssign d =>
+    rcases op1_err _ _ _ _ _ h with rfl | ⟨cd, c, hcd, hf, rfl⟩
+    · exact hI
+    · cases hf
+  case rescale d k a =>
+    rcases op2_err _ _ _ _ _ _ h with rfl | ⟨cd, ca, c, hcd, hca, hf, rfl⟩
+    · exact hI
+    · exact rescaleInto_err _ _ _ _ _ _ hf ▸ Inv_set_self _ _ _ _ hI hcd
+  case rescaleAssign d k =>
+    rcases op1_err _ _ _ _ _ h with rfl | ⟨cd, c, hcd, hf, rfl⟩
+    · exact hI
+    · exact rescaleAssign_err _ _ _ _ _ hf ▸ Inv_set_self _ _ _ _ hI hcd
+  case align a b => exact alignStep_err_inv _ _ _ _ _ _ hI h
+  case compact d =>
+    rcases op1_err _ _ _ _ _ h with rfl | ⟨cd, c, hcd, hf, rfl⟩
+    · exact hI
+    · exact realloc_err _ _ _ _ _ hf ▸ Inv_set_self _ _ _ _ hI hcd
+  case realloc d size =>
+    rcases op1_err _ _ _ _ _ h with rfl | ⟨cd, c, hcd, hf, rfl⟩
+    · exact hI
+    · exact realloc_err _ _ _ _ _ hf ▸ Inv_set_self _ _ _ _ hI hcd
+  case compactCopy d a =>
+    rcases op2_err _ _ _ _ _ _ h with rfl | ⟨cd, ca, c, hcd, hca, hf, rfl⟩
+    · exact hI
+    · exact absurd hf (compactCopy_not_err _ _ _ _ _)
+  case setMeta d m =>
+    rcases op1_err _ _ _ _ _ h with rfl | ⟨cd, c, hcd, hf, rfl⟩
+    · exact hI
+    · exact setMeta_err _ _ _ _ _ hf ▸ Inv_set_self _ _ _ _ hI hcd
+  case dec a pt =>
+    rcases op1_err _ _ _ _ _ h with rfl | ⟨cd, c, hcd, hf, rfl⟩
+    · exact hI
+    · exact decrypt_err _ _ _ _ _ hf ▸ Inv_set_self _ _ _ _ hI hcd
+  case addMany d as => exact (composite_inv env hw pool hI (.addMany d as) trivial).2 e pool' (by simpa only [stepR] using h)
+  case mulMany d as => exact (composite_inv env hw pool hI (.mulMany d as) trivial).2 e pool' (by simpa only [stepR] using h)
+  case dotCt d as bs => exact (composite_inv env hw pool hI (.dotCt d as bs) trivial).2 e pool' (by simpa only [stepR] using h)
+  case dotPtZnx d as pt => exact (composite_inv env hw pool hI (.dotPtZnx d as pt) trivial).2 e pool' (by simpa only [stepR] using h)
+  case dotPtRnx d as prec => exact (composite_inv env hw pool hI (.dotPtRnx d as prec) trivial).2 e pool' (by simpa only [stepR] using h)
+  case dotCstRnx d as prec re im =>
+    exact (composite_inv env hw pool hI (.dotCstRnx d as prec re im) trivial).2 e pool' (by simpa only [stepR] using h)
+
+/-- the run of a caller that handles errors and goes on: an `Err` call is skipped, the state it
+leaves is kept; only a panic ends the run -/
+theorem runC_inv (env : Env) (hw : WF env) (prog : List Op) :
+    ∀ (s s' : Pool), Inv env s → runC env s prog = .ok s' → Inv env s' := by
+  induction prog with
+  | nil => intro s s' hI h; simp only [runC] at h; injection h with h; exact h ▸ hI
+  | cons op rest ih =>
+    intro s s' hI h
+    simp only [runC] at h
+    split at h
+    · next s1 hs1 => exact ih s1 s' (stepR_ok_inv env hw s s1 op hI hs1) h
+    · next e s1 hs1 => exact ih s1 s' (stepR_err_inv env hw s s1 op e hI hs1) h
+    · cases h
+
+/-- `P` holds at every state the error-tolerant run reaches -/
+def AlongC (P : Env → Pool → Op → Prop) (env : Env) : Pool → List Op → Prop
+  | _, [] => True
+  | s, op :: rest => P env s op ∧ ∀ s', (stepR env s op = .ok s' ∨ ∃ e, stepR env s op = .err e s') → AlongC P env s' rest
+
+theorem runC_no_panic (env : Env) (hw : WF env) (prog : List Op) :
+    ∀ (s : Pool), Inv env s → AlongC Initialised env s prog → (runC env s prog).isPanic = false := by
+  induction prog with
+  | nil => intro s _ _; rfl
+  | cons op rest ih =>
+    intro s hI hA
+    obtain ⟨h1, h2⟩ := hA
+    have hp := stepR_no_panic env hw s op hI h1
+    simp only [runC]
+    split
+    · next s1 hs1 => exact ih s1 (stepR_ok_inv env hw s s1 op hI hs1) (h2 s1 (Or.inl hs1))
+    · next e s1 hs1 => exact ih s1 (stepR_err_inv env hw s s1 op e hI hs1) (h2 s1 (Or.inr ⟨e, hs1⟩))
+    · next p hs1 => rw [hs1] at hp; simp [Res.isPanic] at hp
+
 
 end Ckks
